@@ -29,7 +29,8 @@ EXPLANATION = (
     'key per instance in both Dykstra loops (L4). The identities hold for all '
     'real kernels, sizes and loop positions; only the finite set of discrete '
     'configurations is enumerated, completely.'
-    ' Also decided: the skip test of a constraint group names the dimension the partial projection iterates that group index over (L3s dimension binding); the unimodal split and the joint-unimodality centre are the same function of the size (O3); directions validated through .lower() are dispatched case-insensitively (V3c); constraints used as dictionary keys are tuples (T4).')
+    ' Also decided: the skip test of a constraint group names the dimension the partial projection iterates that group index over (L3s dimension binding); the unimodal split and the joint-unimodality centre are the same function of the size (O3); directions validated through .lower() are dispatched case-insensitively (V3c); constraints used as dictionary keys are tuples (T4).'
+    ' Parallel statements for paired roles (dominant / weak, main / conditional) vary consistently (CP1).')
 ASSUMPTIONS = ['tf.maximum/minimum are exact max/min; list cells of '
                '_unstack_nd are distinct tensors for distinct indices',
                'configurations excluded by verify_hyperparameters (monotone '
